@@ -95,6 +95,38 @@ let handle toks = match toks with
       Printf.sprintf "%s %s crashes=%b hangs=%b" (status_name st)
         (match reported_code st (z_of rc) with None -> "None" | Some z -> string_of_int (int_of_z z))
         (crashes_verdict st) (hangs_verdict st)
+  | ["outputs"; s; o; e] ->
+      let nomatch _ _ = false in
+      let m = outputs_mem nomatch false (bytes_of_hex s) (bytes_of_hex o) (bytes_of_hex e) in
+      let f = outputs_file nomatch false (bytes_of_hex s) (bytes_of_hex o) (bytes_of_hex e) in
+      if m = f then (if m then "T" else "F") else "modes-disagree"
+  | ["diff"; ca; oa; ea; cb; ob; eb] ->
+      let m = diff_mem (zopt_of ca) (zopt_of cb) (bytes_of_hex oa) (bytes_of_hex ea) (bytes_of_hex ob) (bytes_of_hex eb) in
+      let f = diff_file (zopt_of ca) (zopt_of cb) (bytes_of_hex oa) (bytes_of_hex ea) (bytes_of_hex ob) (bytes_of_hex eb) in
+      if m = f then (if m then "T" else "F") else "modes-disagree"
+  | ["repeat"; n; seq; cookie; args] ->
+      let inner i _ = let k = int_of_z i - 1 in k < String.length seq && seq.[k] = 'Y' in
+      let (r, calls) = repeat_loop inner (bytes_of_hex cookie) (parts_of args) (z_of n) in
+      (if r then "T" else "F") ^ " " ^ String.concat "|" (List.map (fun c -> String.concat "," (List.map hex_of_bytes c)) calls)
+  | ["ctd"; existing; fault] ->
+      let fs = zs_of existing in
+      let fo = if fault = "-" then (fun _ -> None) else
+          (match String.split_on_char ':' fault with
+           | [i; e] -> let e' = (match e with "EACCES" -> EACCES | "ENOENT" -> ENOENT | "ENOTDIR" -> ENOTDIR
+                                            | "EROFS" -> EROFS | "ENOSPC" -> ENOSPC | _ -> EOTHER) in
+             (fun j -> if int_of_z j = int_of_string i then Some e' else None)
+           | _ -> failwith "fault") in
+      (match create_temp_dir (nat_of_int 100) fo fs with
+       | Dir (n, _) -> Printf.sprintf "dir tmp%d" (int_of_z n)
+       | Failed (e, _) -> "err " ^ (match e with EACCES -> "EACCES" | ENOENT -> "ENOENT" | ENOTDIR -> "ENOTDIR"
+                                              | EROFS -> "EROFS" | ENOSPC -> "ENOSPC" | EOTHER -> "EOTHER")
+       | Spinning -> "spin")
+  | ["sched"; existing; k; sched] ->
+      let fs = zs_of existing in
+      let sc = if sched = "-" then [] else List.map (fun x -> nat_of_int (int_of_string x)) (String.split_on_char ',' sched) in
+      let rec rep n = if n = 0 then [] else proc0 :: rep (n - 1) in
+      let (_, procs) = run_sched sc fs (rep (int_of_string k)) in
+      String.concat "," (List.sort compare (List.map (fun z -> string_of_int (int_of_z z)) (results procs)))
   | ["load"; atom; d] -> res str_of_tc ((load_of atom) (bytes_of_hex d))
   | ["splitlines"; d] -> "ok " ^ str_of_parts (splitlines (bytes_of_hex d))
   | ["markers"; d] -> (match find_markers (bytes_of_hex d) with
@@ -103,6 +135,9 @@ let handle toks = match toks with
       | MarkerError -> "err LithiumError")
   | ["run"; "minimize"; mn; mx; rp; first; limit; clk; b; p; r; a; file0; verdicts; fuel] ->
       let strat = minimize (cfg_of mn mx rp first limit) (clock_of clk) no_post in
+      str_of_result (run strat (verdict_of verdicts) (nat_of_int (int_of_string fuel)) (tc_of b p r a) (bytes_of_hex file0))
+  | ["run"; ("minimize-around" | "minimize-balanced" as k); mn; mx; rp; first; limit; clk; b; p; r; a; file0; verdicts; fuel] ->
+      let strat = pairs (if k = "minimize-around" then KAround else KBalanced) (cfg_of mn mx rp first limit) (clock_of clk) in
       str_of_result (run strat (verdict_of verdicts) (nat_of_int (int_of_string fuel)) (tc_of b p r a) (bytes_of_hex file0))
   | ["run"; "replay"; steps; b; p; r; a; file0; verdicts; fuel] ->
       let step_of s =
